@@ -979,7 +979,9 @@ def run_dpg(case):
     check(np.shape(loss) == (), sub + ".value.shape", f"{np.shape(loss)}")
     check(close(float(loss), ref, scale=vscale), sub + ".value", lambda: f"loss={float(loss)} ref={ref} q={qv.tolist()}")
     gref = pn.grad_of(target, objective, consts)
-    g = _grad_check(sub + ".grad", grad, gref, None, f"loss={float(loss)}")
+    # SALE / MR.Q critics and encoders normalise (LayerNorm, avg-L1): allow the measured float32 conditioning
+    g = _grad_check(sub + ".grad", grad, gref, None, f"loss={float(loss)}",
+                    extra=pn.grad_sensitivity(target, objective, consts, gref))
     gn = pn.grad_norm(gref)
     if case["wrapper"] and wrapper is not None:
         before = {k: state_bytes(m) for k, m in others.items()}
